@@ -100,7 +100,7 @@ def templated(rng):
     """structured scenarios (mostly valid, specific multi-step shapes) with random variation"""
     drv = rng.choice([0, 1, 1])
     cap = rng.choice([1, 2, 4, 1024])
-    t = rng.choice(list(range(10)) + [9, 9, 6])
+    t = rng.choice(list(range(10)) + [9, 9, 6, 0, 0])
     S = []
     if t == 0:
         # several operations queued on ONE descriptor, one of them (often the head) is cancelled
@@ -113,8 +113,8 @@ def templated(rng):
         S.append((5, rng.choice([0, 5]), 0))
         if rng.random() < 0.5:
             S.append((5, 5, 0))
-        S.append((4, 0, rng.choice([1, 3, 9])))
-        S += [(5, 10, 0), (5, 5, 0)]
+        S.append((4, 0, rng.choice([3, 9, 16])))
+        S += [(5, 10, 0), (5, 5, 0)] * (2 if drv == 0 else k + 1)
         S += [(6, i, 0) for i in range(k)]
     elif t == 1:
         # multishot accept with unreaped completions when the driver goes away
